@@ -164,7 +164,9 @@ func generate(p *Program, property string, onlyFunc string) *runResult {
 				// other obligations may fail merely for lack of the skipped clause, so none of them is a refutation
 				// by itself (decided by replay, like paths through abstracted externals), and no vacuity claim is made
 				for _, ob := range x.obs {
-					ob.Abstracted = append(ob.Abstracted, "function not verified: "+x.errs[0])
+					if !ob.Static {
+						ob.Abstracted = append(ob.Abstracted, "function not verified: "+x.errs[0])
+					}
 				}
 				x.smokes = nil
 			}
